@@ -56,6 +56,14 @@ let () =
     | ["FSV"; tn; ops; sid; pname; stmt; a; l; e; sv] ->
       b2s (fs_accept xof (ctx tn ops sid) (bytes_of_hex pname) (bytes_of_hex stmt) (bytes_of_hex a) (z_of_string l)
              (bytes_of_hex e) (fun _ -> sv = "1"))
+    | ["FIK"; tn; ops; sid; pname; stmt; rho] ->
+      (match fi_key_call (ctx tn ops sid) (bytes_of_hex pname) (bytes_of_hex stmt) (z_of_string rho) with
+       | None -> "NONE"
+       | Some c -> String.concat "," [hex_of_bytes c.xc_custom; hex_of_bytes c.xc_input; z_to_string c.xc_len])
+    | ["RFK"; tn; ops; sid; pname] ->
+      (match rf_crs_call (ctx tn ops sid) (bytes_of_hex pname) with
+       | None -> "NONE"
+       | Some c -> String.concat "," [hex_of_bytes c.xc_custom; hex_of_bytes c.xc_input; z_to_string c.xc_len])
     | ["FIP"; rho; ss] ->
       (match fischlin_params (z_of_string rho) (z_of_string ss) with
        | None -> "NONE"
@@ -63,8 +71,8 @@ let () =
     | ["FIV"; tn; ops; sid; pname; stmt; rho; b; t; l; rs; svs] ->
       b2s (fischlin_accept xof hash (ctx tn ops sid) (bytes_of_hex pname) (bytes_of_hex stmt)
              (z_of_string rho) (z_of_string b) (z_of_string t) (nat l) (reps rs) (sv_of svs))
-    | ["RFV"; tn; ops; sid; pname; rs; svs] ->
-      b2s (randfischlin_accept xof hash (ctx tn ops sid) (bytes_of_hex pname) (reps rs) (sv_of svs))
+    | ["RFV"; tn; ops; sid; pname; l; rs; svs] ->
+      b2s (randfischlin_accept xof hash (ctx tn ops sid) (bytes_of_hex pname) (nat l) (reps rs) (sv_of svs))
     | ["MP"; q; n; phi; k; w; e] ->
       let q = z_of_hex q in
       let a = lin_commit q (nat n) (mat phi) (vec k) in
